@@ -1154,3 +1154,9 @@ def run(idx, rep, tier):
     r6(k)
     r7(k)
     r8(k)
+    from .shared import per_instance_state
+    rep.rule('C14.R9', 'the request-id -> waiter table and every other '
+             'container an SFTP handler mutates through self is bound in a '
+             'constructor, not a class attribute shared by all sessions of '
+             'the process (ids are per session: two sessions both use id 0)')
+    per_instance_state(k, 'C14.R9', ['sftp'], 5)
